@@ -29,6 +29,11 @@ CLAIMS = {
   "Decides three local clauses (R03.1-R03.3, DESIGN.md §4 C03): text inside raw-text elements and pre is never whitespace/entity rewritten; no end tag is omitted on the strength of an element the minifier has no traits for, and unconditional omissions stay within the standard's optional-tag lists; "
   "every attribute value passes html.EscapeAttrVal. The trait tables are decided under C17. Whitespace significance per document, optional-tag inference in every context and `</script` inside script text are not decided.",
   OTHER_NOTE, "DESIGN.md §4 C03"),
+ "C04": ("other",
+  "must-pass-through with a stipulated flag on the CFG of the declaration writer, default-clause and write-every-element checks",
+  "Decides two structural clauses only (R04.1, R04.2, DESIGN.md §4 C04): a stripped `!important` is written back on every path; unknown grammar elements, declarations with a parse error and value lists the minifier declines are passed through token by token. "
+  "Equivalence of numbers, colours, shorthands, unicode-range and background-position rewrites is semantic and NOT decided (tables: C17).",
+  OTHER_NOTE, "DESIGN.md §4 C04"),
  "C05": ("other",
   "must-pass-through on the CFG of the path emitter, guard classification and constant evaluation of (attribute, value) pairs in the attribute-dropping conditions",
   "Decides (R05.1-R05.3, DESIGN.md §4 C05): emitting command bytes always updates the last-command state; an attribute is only dropped when already removed, when it carries a documented SVG default, or when it has a non-functional namespace prefix (xlink/xml exempt); "
@@ -49,6 +54,11 @@ CLAIMS = {
   "Decides two shape clauses only (R08.1, R08.2, DESIGN.md §4 C08): Decimal stores nothing but '0', '1', '-' and guarded digit increments and calls nothing, so it cannot introduce an exponent; all writes of Number/Decimal go through the parameter slice or low-bound-only reslices of it (no append, no high-bounded write target, no unsafe), so they can never touch bytes outside the slice they were given. "
   "Value equality, rounding, `never longer` and panic-freedom are NOT decided (no numeric abstract interpretation available).",
   OTHER_NOTE, "DESIGN.md §4 C08"),
+ "C09": ("other",
+  "must-pass-through rule on the CFG of the JS statement printer per statement kind",
+  "Decides only the statement-terminator discipline (R09.1, DESIGN.md §4 C09): every `;`-terminated statement kind and every class field requests its semicolon on all paths after emitting, so that adjacent statements cannot be glued together. "
+  "Validity of the output of the six minifiers in general, re-acceptance, and the keyword-separation typestate (R09.2, evaluated and dropped) are NOT decided.",
+  OTHER_NOTE, "DESIGN.md §4 C09"),
  "C10": ("other",
   "SSA provenance of the reader argument, error-edge return analysis, limit-guard domination on the CFG",
   "Decides two structural clauses (R10.1, R10.2, DESIGN.md §4 C10): the byte/string helpers return their own parameter on error and never hand its backing array to an in-place minifier; every documented resource limit "
